@@ -910,17 +910,123 @@ void caseSpectrum(vrt::Case& c)
   auditEigen(c, sp);
 }
 
-// exp and pow(A,p) on diagonalisable matrices with real spectrum
-void caseFunctions(vrt::Case& c)
+// Eigenvector basis S (and its inverse) with a structural pattern of exact zeros, so that S.diag(lambda).S^-1 has the
+// same pattern: triangular (lower / upper / hidden by a symmetric permutation; dense, sparse or with one single
+// off-diagonal entry), block triangular and block diagonal with dense diagonal blocks.  keep(i,j) = 0 marks the
+// entries of S.diag(lambda).S^-1 that vanish by construction.  Returns the flavour name.
+const int SHAPED_PATTERNS = 12;
+string shapedBasis(vrt::Rng& g, size_t n, int pat, LMat& S, LMat& Si, vector<char>& keep)
+{
+  keep.assign(n * n, 1);
+  string name;
+  if (pat < 9)
+  {
+    const int orient = pat / 3, dens = pat % 3; // 0 lower, 1 upper, 2 permuted; 0 dense, 1 sparse, 2 one entry
+    LMat T = identityL(n); // unit lower triangular
+    if (n >= 2)
+    {
+      if (dens == 2)
+      {
+        size_t p = g.below(n), q = g.below(n - 1);
+        if (q >= p) ++q;
+        T(max(p, q), min(p, q)) = static_cast<LD>(g.real(0.25, 1)) * (g.chance(0.5) ? 1 : -1);
+      }
+      else
+      {
+        LD amp = dens == 0 ? 1 / sqrtl(static_cast<LD>(n)) : 1;
+        bool any = false;
+        for (size_t i = 1; i < n; ++i)
+          for (size_t j = 0; j < i; ++j)
+            if (dens == 0 || g.chance(0.3)) { T(i, j) = amp * static_cast<LD>(g.real(-1, 1)); any = true; }
+        if (!any) T(1 + g.below(n - 1), 0) = static_cast<LD>(g.real(0.25, 1));
+      }
+    }
+    LMat Ti;
+    if (!inverseL(T, Ti)) return string();
+    for (size_t i = 0; i < n; ++i) for (size_t j = i + 1; j < n; ++j) { Ti(i, j) = 0; keep[i * n + j] = 0; }
+    bool lower = orient == 0 || (orient == 2 && g.chance(0.5));
+    if (!lower)
+    {
+      T = transposeL(T);
+      Ti = transposeL(Ti);
+      vector<char> k2(n * n);
+      for (size_t i = 0; i < n; ++i) for (size_t j = 0; j < n; ++j) k2[j * n + i] = keep[i * n + j];
+      keep = k2;
+    }
+    if (orient == 2)
+    {
+      vector<size_t> p = randomPerm(g, n); // S = P.T, S^-1 = T^-1.P^T: the product is P.(triangular).P^T
+      S = LMat(n, n);
+      Si = LMat(n, n);
+      vector<char> k2(n * n);
+      for (size_t i = 0; i < n; ++i)
+        for (size_t j = 0; j < n; ++j) { S(p[i], j) = T(i, j); Si(i, p[j]) = Ti(i, j); k2[p[i] * n + p[j]] = keep[i * n + j]; }
+      keep = k2;
+    }
+    else { S = T; Si = Ti; }
+    name = string(orient == 0 ? "fn-lower-triangular" : orient == 1 ? "fn-upper-triangular" : "fn-permuted-triangular") + (dens == 0 ? "" : dens == 1 ? "-sparse" : "-one-entry");
+  }
+  else
+  {
+    // [[S1,0],[X,S2]] with inverse [[S1^-1,0],[-S2^-1.X.S1^-1,S2^-1]]; X = 0: block diagonal; transposed: block upper triangular
+    name = pat == 9 ? "fn-block-lower-triangular" : pat == 10 ? "fn-block-upper-triangular" : "fn-block-diagonal";
+    S = identityL(n);
+    Si = identityL(n);
+    if (n >= 2)
+    {
+      size_t k = 1 + g.below(n - 1), m = n - k;
+      LMat S1, S1i, S2, S2i, X(m, k);
+      conditionedBasis(g, k, powl(10.0L, static_cast<LD>(g.real(0, 0.5))), S1, S1i);
+      conditionedBasis(g, m, powl(10.0L, static_cast<LD>(g.real(0, 0.5))), S2, S2i);
+      if (pat != 11) for (LD& x : X.a) x = static_cast<LD>(g.real(-0.5, 0.5));
+      LMat Y = mul(mul(S2i, X), S1i);
+      S = LMat(n, n);
+      Si = LMat(n, n);
+      for (size_t i = 0; i < k; ++i) for (size_t j = 0; j < k; ++j) { S(i, j) = S1(i, j); Si(i, j) = S1i(i, j); }
+      for (size_t i = 0; i < m; ++i) for (size_t j = 0; j < m; ++j) { S(k + i, k + j) = S2(i, j); Si(k + i, k + j) = S2i(i, j); }
+      for (size_t i = 0; i < m; ++i) for (size_t j = 0; j < k; ++j) { S(k + i, j) = X(i, j); Si(k + i, j) = -Y(i, j); }
+      for (size_t i = 0; i < n; ++i)
+        for (size_t j = 0; j < n; ++j)
+          if ((i < k && j >= k) || (pat == 11 && i >= k && j < k)) keep[i * n + j] = 0;
+      if (pat == 10)
+      {
+        S = transposeL(S);
+        Si = transposeL(Si);
+        vector<char> k2(n * n);
+        for (size_t i = 0; i < n; ++i) for (size_t j = 0; j < n; ++j) k2[j * n + i] = keep[i * n + j];
+        keep = k2;
+      }
+    }
+  }
+  return name;
+}
+
+// exp and pow(A,p) on diagonalisable matrices with real spectrum; f = flavour family (0..3 group `functions`,
+// 4 = matrices with a structural zero pattern, group `functions-shaped`, pattern pat)
+void functionsCase(vrt::Case& c, int f, int pat)
 {
   size_t n = 1 + c.index % 12;
-  int f = static_cast<int>((c.index / 12) % 4);
   bool positive = c.rng.chance(0.5); // spectrum in [0.25, 2]: fractional and negative powers allowed
   LD kappa = 1;
+  LD specGap = 0; // mutual distance of the eigenvalues (family 4)
   vector<LD> lam(n);
+  vector<char> keep;
   LMat S, Si;
   string gen;
-  if (f == 0 || f == 1)
+  if (f == 4)
+  {
+    // S.diag(lambda).S^-1 with a separated real spectrum and a basis S that has a pattern of exact zeros: the matrix is
+    // lower / upper / permuted triangular (eigenvalues on its diagonal), block triangular or block diagonal.  Decomposition,
+    // exp and pow must not depend on the shape; kappa = |S|_F |S^-1|_F bounds kappa_2(S).
+    specGap = (positive ? 1.0L : 2.0L) / static_cast<LD>(2 * n + 2);
+    vector<CLD> z = separatedSpectrum(c.rng, n, false, positive ? 0.25L : -2, 2, specGap);
+    if (z.size() != n) { vrt::tally("spectrum-generation-gave-up"); return; }
+    for (size_t i = 0; i < n; ++i) lam[i] = z[i].real();
+    gen = shapedBasis(c.rng, n, pat, S, Si, keep);
+    if (gen.empty()) { vrt::tally("shaped-basis-gave-up"); return; }
+    kappa = frob(S) * frob(Si);
+  }
+  else if (f == 0 || f == 1)
   {
     // non-symmetric S.diag(lambda).S^-1, kappa(S) <= 10, separated real spectrum, |lambda| <= 2
     kappa = powl(10.0L, static_cast<LD>(c.rng.real(0, 1)));
@@ -955,6 +1061,8 @@ void caseFunctions(vrt::Case& c)
   for (size_t i = 0; i < n; ++i) L(i, i) = lam[i];
   LMat AL0 = mul(mul(S, L), Si);
   Dense A = f == 2 || f == 3 ? symmetrised(AL0) : roundL(AL0);
+  if (f == 4) // entries that vanish by construction are exact zeros (the long double products leave at most rounding noise there)
+    for (size_t i = 0; i < n * n; ++i) if (!keep[i]) A.a[i] = 0.0;
   const bool symIn = exactlySymmetric(A);
   const LMat AL = toL(A);
   const LD normA = frob(A);
@@ -962,6 +1070,9 @@ void caseFunctions(vrt::Case& c)
   for (LD x : lam) minAbs = min(minAbs, fabsl(x));
   vrt::describe(gen + ":n=" + str(n), "kappa(S)=" + numL(kappa) + " A=" + dump(A));
   const string cls = string(symIn ? "symmetric" : "non-symmetric") + "," + nClass(n);
+  // family 4: the basis is not bounded by 10; the run is judged only while the Bauer-Fike radius of the backward error stays
+  // far below the separation of the eigenvalues (otherwise a complex pair / a merged pair would be a legitimate answer)
+  if (f == 4 && !(kappa * CQR * static_cast<LD>(n) * EPS * normA < specGap / 4)) { vrt::counted("functions.ill-conditioned-S-unjudged"); return; }
 
   // condition number of the eigenvector matrix the library works with (a-posteriori)
   int kA = static_cast<int>(c.rng.below(3));
@@ -1056,6 +1167,9 @@ void caseFunctions(vrt::Case& c)
   Dense A2 = toDense(*mA);
   vrt::expect(A2.a == A.a, "input-unchanged", cls, [&] { return head + " was modified: " + dump(A2); });
 }
+void caseFunctions(vrt::Case& c) { functionsCase(c, static_cast<int>((c.index / 12) % 4), 0); }
+// the same functions on matrices with a structural pattern of zeros (triangular, permuted triangular, block triangular, block diagonal)
+void caseFunctionsShaped(vrt::Case& c) { functionsCase(c, 4, static_cast<int>((c.index / 12) % SHAPED_PATTERNS)); }
 
 // DualityDiagram: the eigen-decomposition of the weighted cross-product matrix drives all outputs
 void caseDuality(vrt::Case& c)
@@ -1202,6 +1316,7 @@ int main(int argc, char** argv)
     { "structured", 28800, 1188000, caseStructured, 300, false },
     { "spectrum", 9600, 360000, caseSpectrum, 300, false },
     { "functions", 14400, 540000, caseFunctions, 300, false },
+    { "functions-shaped", 4320, 172800, caseFunctionsShaped, 300, false },
     { "duality", 8000, 300000, caseDuality, 300, false },
   };
   vrt::Meta meta;
@@ -1210,7 +1325,9 @@ int main(int argc, char** argv)
       "structured (upper / lower triangular incl. repeated diagonal, companion matrices of polynomials with prescribed real roots or complex pairs, rotation blocks plain / permuted / "
       "orthogonally rotated incl. pure 90-degree rotations, Jordan blocks plain / rotated, nearly defective triangular (diagonal entries 1e-12..1e-6 apart), signed permutation matrices, nilpotent, symmetric matrices with one entry of one pair changed (by one ulp, 0.1 %, or replaced), skew-symmetric orthogonal matrices (all eigenvalues +-i), graded non-symmetric, 0/1 matrices, Hessenberg with zero "
       "subdiagonal entries), spectrum (S.B.S^-1 with kappa(S)=1..100 and a simple spectrum with mutual distances >= 0.4/n, real or with complex pairs), functions (exp, pow(A,p) for p in "
-      "{0,1,2,3,5,-1,-2,0.5,1/3,1.5,2.5,-0.5} on S.diag(lambda).S^-1 with kappa(S)<=10, symmetric, diagonal, identity, zero matrices, |lambda|<=2), duality (DualityDiagram on r x q data, "
+      "{0,1,2,3,5,-1,-2,0.5,1/3,1.5,2.5,-0.5} on S.diag(lambda).S^-1 with kappa(S)<=10, symmetric, diagonal, identity, zero matrices, |lambda|<=2), functions-shaped (the same calls on S.diag(lambda).S^-1 whose basis S has a pattern of exact zeros, pattern = (index div 12) mod 12: "
+      "lower / upper / symmetrically permuted triangular, each dense, sparse or with one single off-diagonal entry, block lower / block upper triangular and block diagonal with dense diagonal blocks; "
+      "separated real spectrum, |lambda|<=2), duality (DualityDiagram on r x q data, "
       "r,q in 1..8, positive weights), fixed (thirteen stored matrices). Every matrix is passed as RowMatrix / ColMatrix / LinearMatrix (random). A class key = (flavour, n, symmetric or not, "
       "number of complex pairs returned, storage class): each involves a full decomposition.";
   meta.assumptions = {
@@ -1218,6 +1335,7 @@ int main(int argc, char** argv)
     "|V^T V - I|_F <= 100 n eps; symmetric eigenvalues within 1e3 n eps |A|_F of a long double Jacobi reference; prescribed spectra within kappa(S) 1e4 n eps |A|_F (Bauer-Fike); eps = 2^-52",
     "exp / pow: deviation from the long double reference <= C n eps kappa_F(V) (1+|A|) e^|A| resp. (p+1) max(1,|A|)^p (kappa_F(V) of the returned eigenvector matrix; runs with kappa_F(V) >= 1e8 are not judged); "
     "fractional powers additionally kappa(S)^2 max|f'|; only diagonalisable matrices with real spectrum, |lambda| <= 2, positive spectrum >= 0.25 for fractional and negative powers",
+    "functions-shaped: kappa(S) is bounded by |S|_F |S^-1|_F; a case is judged only while kappa(S) 1e4 n eps |A|_F stays below a quarter of the separation of the prescribed eigenvalues",
     "a column of V that is entirely zero is reported (an eigenvector is non-zero); V is otherwise allowed to be ill conditioned or singular (defective matrices)",
     "DualityDiagram: full-rank data with singular values in [0.5,2] and weights in [0.5,2] (strictly positive), duality relations within 1e-6 relative",
     "n = 1..12, finite entries between 1e-6 and 1e6 in magnitude (or zero); the 0x0 matrix and non-finite entries are outside the quantifier; termination is bounded by the driver's watchdog",
